@@ -9,13 +9,15 @@ KINDS_MULTI = ["p2sh", "p2wsh", "p2sh-p2wsh"]
 
 
 class Wallet:
-    def __init__(self, rng, kind, m=1, n=1, network="mainnet"):
+    def __init__(self, rng, kind, m=1, n=1, network="mainnet", account_path=None):
         from buidl.hd import HDPrivateKey
         from buidl.psbt import NamedHDPublicKey
 
         self.kind, self.m, self.n, self.network = kind, m, n, network
         coin = "0'" if network == "mainnet" else "1'"
-        if kind in KINDS_MULTI:
+        if account_path is not None:
+            self.account_path = account_path
+        elif kind in KINDS_MULTI:
             self.account_path = f"m/48'/{coin}/0'/2'"
         else:
             self.account_path = {"p2pkh": f"m/44'/{coin}/0'", "p2wpkh": f"m/84'/{coin}/0'", "p2sh-p2wpkh": f"m/49'/{coin}/0'"}[kind]
